@@ -81,6 +81,13 @@ def evaluate(case):
     if fp.kind_of(res) != fp.kind_of(data):
         ev.add("result-kind-differs", {"in": fp.kind_of(data), "out": fp.kind_of(res)})
         return ev
+    if "mi-coerce" in ops and not spec.get("drop_invalid_rows"):
+        # coercing an index whose levels already have their types is the identity on the index
+        try:
+            if fp.snapshot(res.index) != fp.snapshot(data.index):
+                ev.add("noop-coercion-changed-index", {"ops": ops, "diff": fp.fp_diff(fp.snapshot(data.index), fp.snapshot(res.index))[:4]})
+        except Exception as e:  # noqa: BLE001
+            ev.add("result-index-unreadable", repr(e)[:200])
     stripped = sp.strip_parsers(spec)
     # (1a) pandera itself, parsing off
     s2 = sp.pandas_schema(stripped)
